@@ -3,8 +3,8 @@
    LabelJson.v (label sets), SeriesIndex.v (request histories), Dates.v (days and time zones). *)
 From Coq Require Import List ZArith Bool String Permutation.
 From Qryn Require Import model.GoQuote model.LabelJson model.Fingerprint model.Labels
-  model.SeriesIndex model.FlushRule model.Dates model.CacheKey model.GoJson model.DdTags model.ProtoLabels model.SeriesDoc
-  proofs.FingerprintProofs proofs.FingerprintInjProofs proofs.LabelsProofs proofs.JsonQuoteProofs proofs.LabelDocReaderProofs proofs.ProtoLabelsProofs proofs.GoJsonProofs proofs.DdTagsProofs proofs.ProtoGuardProofs proofs.SeriesIndexProofs proofs.FlushRuleProofs proofs.DiscoverProofs proofs.DiscoverWindowProofs proofs.DatesProofs proofs.CacheKeyProofs.
+  model.SeriesIndex model.ConfirmRule model.FlushRule model.Dates model.CacheKey model.GoJson model.DdTags model.ProtoLabels model.SeriesDoc
+  proofs.FingerprintProofs proofs.FingerprintInjProofs proofs.LabelsProofs proofs.JsonQuoteProofs proofs.LabelDocReaderProofs proofs.ProtoLabelsProofs proofs.GoJsonProofs proofs.DdTagsProofs proofs.ProtoGuardProofs proofs.SeriesIndexProofs proofs.ConfirmRuleProofs proofs.FlushRuleProofs proofs.DiscoverProofs proofs.DiscoverWindowProofs proofs.DatesProofs proofs.CacheKeyProofs.
 From Qryn Require model.Scans model.LogqlPlan model.SqlEval.
 Import ListNotations.
 Open Scope Z_scope.
@@ -287,6 +287,36 @@ Print Assumptions label_document_before_fix_exact.
 Theorem acked_sample_is_indexed : forall h, all_indexed_typed (run init h) = true.
 Proof. exact acked_indexed_typed_all. Qed.
 Print Assumptions acked_sample_is_indexed.
+
+(* WHICH chunks of a request doParse may enter into the announcement cache (model/ConfirmRule.v: the request in flight remembers
+   the chunks it sent with the outcomes of their inserts, the promise list is spelled out as in the code - FIVE promises per
+   chunk, series insert, samples insert, three pushes of nil requests that are fulfilled at once - and the decision which
+   chunks are confirmed is an argument [r] of the model). A rule is [sound] when it confirms a chunk only if the chunk has no
+   series rows or its OWN time_series insert succeeded. For EVERY sound rule and every history (same actions as above) every
+   acknowledged sample has its row, and the cache holds inserted rows only. *)
+Theorem acked_sample_is_indexed_under_every_sound_confirmation_rule : forall r, sound r ->
+  forall h, r_all_indexed_typed (rrun r rinit h) = true /\ incl (r_cache (rrun r rinit h)) (r_rows (rrun r rinit h)).
+Proof. exact (fun r Hs h => conj (sound_rule_indexed r Hs h) (sound_rule_cache_covered r Hs h)). Qed.
+Print Assumptions acked_sample_is_indexed_under_every_sound_confirmation_rule.
+
+(* The rule of the code (every chunk, when every promise of the request was fulfilled) is sound, so is the finer rule "a chunk
+   is confirmed when its own series insert succeeded, whatever the status"; and under the rule of the code the extended model
+   is literally the model of the history theorems: the promise list of doParse adds no behaviour. *)
+Theorem confirmation_rule_of_the_code_is_sound_and_is_the_history_model :
+  sound rule_all /\ sound rule_own /\ forall h, view (rrun rule_all rinit h) = run init h.
+Proof. exact (conj rule_all_sound (conj rule_own_sound rule_all_is_run_init)). Qed.
+Print Assumptions confirmation_rule_of_the_code_is_sound_and_is_the_history_model.
+
+(* Pairing series[i] with promises[i] (the i-th entry of the FLAT promise list: for the second chunk that is the samples insert
+   of the first chunk, for the third a push of a nil request) is not sound, and the property fails: a request of two chunks whose
+   second series insert fails is answered 5xx, the series of the second chunk is confirmed nevertheless, the client's next push
+   of that stream is acknowledged without a series row. The check drives this history (and the 29 others of its kind: 2..4 chunks,
+   every failing position) through the real doParse on every run. *)
+Theorem confirmation_by_promise_position_refuted :
+  not (sound rule_position) /\
+  exists h, r_all_indexed_typed (rrun rule_position rinit h) = false.
+Proof. exact (conj rule_position_not_sound (ex_intro _ w_position rule_position_loses_row)). Qed.
+Print Assumptions confirmation_by_promise_position_refuted.
 
 (* The rule the code places the mid-request flushes with (model/FlushRule.v: len(message) + 26 per entry, 14 + len(labels text)
    per announced row, a chunk is sent when the sum exceeds 1 MiB, the rest when the body ends; tied to the real parser on bodies
